@@ -145,7 +145,8 @@ func genC07Shape(t *rapid.T) c07Shape {
 		s.Memo = rapid.SampledFrom([]string{"m", "hello world"}).Draw(t, "memo")
 	}
 	if dev("devtimeout") {
-		s.Timeout = uint64(rapid.IntRange(1, 100).Draw(t, "timeout"))
+		// past, current and future heights, and the boundaries of the signed / unsigned 64-bit ranges
+		s.Timeout = rapid.SampledFrom([]uint64{1, 2, 3, 5, 50, 100, 1 << 31, 1 << 32, 1<<63 - 1, 1 << 63, 1<<63 + 1, 1<<64 - 2, 1<<64 - 1}).Draw(t, "timeout")
 	}
 	s.Payer = dev("devpayer")
 	s.Granter = dev("devgranter")
